@@ -397,8 +397,10 @@ func head(b []byte) []byte {
 	return b
 }
 
+var c04GoProp = ev.Prop("c04.go", genC04(false), checkC04Go, classifyC04, sampleC04)
+
 func TestC04Go(t *testing.T) {
-	rapid.Check(t, ev.Prop("c04.go", genC04(false), checkC04Go, classifyC04, sampleC04))
+	rapid.Check(t, c04GoProp)
 }
 
 // ---- differential leg with the Python runtime codec and contrib/frame_parser.py
@@ -532,6 +534,8 @@ func checkC04Peer(c c04Case) *ev.Failure {
 	return nil
 }
 
+var c04PeerProp = ev.Prop("c04.peer", genC04(true), checkC04Peer, classifyC04, sampleC04)
+
 func TestC04Peer(t *testing.T) {
 	defer func() {
 		if peer3 != nil {
@@ -540,7 +544,7 @@ func TestC04Peer(t *testing.T) {
 			peer3, peer2 = nil, nil
 		}
 	}()
-	rapid.Check(t, ev.Prop("c04.peer", genC04(true), checkC04Peer, classifyC04, sampleC04))
+	rapid.Check(t, c04PeerProp)
 }
 
 var _ = context.Background
